@@ -4,6 +4,7 @@ import LdkModel.Props.C15
 #print axioms Ldk.C15.rotation_in_sync
 #print axioms Ldk.C15.rotation_schedule
 #print axioms Ldk.C15.tamper_disconnects
+#print axioms Ldk.C15.delivered_is_genuine
 #print axioms Ldk.C15.replay_disconnects
 #print axioms Ldk.C15.replay_within_epoch_disconnects
 #print axioms Ldk.C15.truncation_delivers_prefix
@@ -12,3 +13,4 @@ import LdkModel.Props.C15
 #print axioms Ldk.C15.unknown_even_odd_rule
 #print axioms Ldk.C15.handshake_keys_match
 #print axioms Ldk.C15.handshake_then_transport
+#print axioms Ldk.C15.model_constants_match_source
